@@ -181,6 +181,9 @@ def body(chk):
     chk.assumptions += ["the yield points are the file-system operations (open, seek, read, close) of the vtrace filesystem; lock acquisition is not a "
                         "yield point: a thread blocked on the lock is simply not schedulable (its steps are skipped)",
                         "only the realised order is judged; pickled copies are made and loaded in the same process"]
+    from harness import sessioncheck
+
+    sessioncheck.standard(chk)
     chk.finish(rule="schedules = all 70 interleavings of two one-chunk loads + behaviours of Loads.tla simulated by TLC (diff / same / pickled / three "
                     "threads) + adversarial interleavings for the locked scenarios; evaluations = schedules executed; distinct = distinct REALISED "
                     "(scenario, event order)", exhaustive=False, extra={"skipped_steps": skipped, "controls_rejected": 1})
